@@ -16,6 +16,7 @@ SimNext ==
      \/ Processed(RandomElement(Universe))
      \/ Processed(IF Range(expected) \ processed = {} THEN RandomElement(Universe) ELSE RandomElement(Range(expected) \ processed))
      \/ Tick
+     \/ Sort
      \/ (Len(hist) >= MaxSteps - 4 /\ Cancel)
 SimSpec == Init /\ [][SimNext]_vars
 BehaviourExport == (Len(hist) = MaxSteps) => PrintT(<<"BEH", ToJson([th |-> threshold, steps |-> hist])>>)
